@@ -607,9 +607,19 @@ impl private::StoreCallbacks<AnnotationDataSet> for AnnotationStore {
                 annotations.insert(annotation.handle_or_err()?);
             }
         }
+        //as well as all annotations that target a key or data item of this set
+        if let Some(map) = self.key_annotation_metamap.data.get(handle.as_usize()) {
+            annotations.extend(map.data.iter().flatten());
+        }
+        if let Some(map) = self.data_annotation_metamap.data.get(handle.as_usize()) {
+            annotations.extend(map.data.iter().flatten());
+        }
         for a_handle in annotations {
             self.cascade_remove_annotation(a_handle)?;
         }
+        self.key_annotation_metamap.remove_all(handle);
+        self.data_annotation_metamap.remove_all(handle);
+        self.dataset_data_annotation_map.remove_all(handle);
         if let Some(annotations) = self.dataset_annotation_metamap.data.get(handle.as_usize()) {
             //remove annotations that point at us (we clone to lose the reference and not break exclusive mutable borrow rules)
             for a_handle in annotations.clone() {
